@@ -147,12 +147,12 @@ PROPS["C09"] = {
 
 PROPS["C20"] = {
     "units": ["render"],
-    "probes": {"render": ["progress_fancy::task_message", "progress_fancy::truncate", "progress_fancy::progress_bar", "progress::build_message"]},
+    "probes": {"render": ["progress_fancy::task_message", "progress_fancy::truncate", "progress_fancy::progress_bar", "progress::build_message", "terminal::unix::get_cols"]},
     "level": "proof",
     "assumptions": [
         "TRUSTED byte model of str/String (R9 wrappers, render.pre.rs): len, is_char_boundary (defined on the utf-8 bytes exactly as core does), &s[..n] and String::truncate panic unless n is a boundary, push/push_str/repeat append the encodings, an ASCII char encodes to one byte; utf-8 encoding itself is uninterpreted",
         "format!(\" ({}s)\", seconds) is an opaque String of arbitrary length (R4): the width bound therefore holds for every elapsed time, not only up to 10^6 s",
-        "progress_bar's precondition total * (bar_size + 1) <= usize::MAX holds at its only call site (bar_size 40, counts bounded by the number of builds < 2^32 by C19's count_inv) but print_progress itself -- mutex, debounce thread, write! to the pending buffer, terminal::get_cols (ioctl, rejects < 10) -- is not under contract: 'a rendering problem never aborts the build' is decided only as 'these three functions never panic and terminate'",
+        "progress_bar's precondition total * (bar_size + 1) <= usize::MAX holds at its only call site (bar_size 40, counts bounded by the number of builds < 2^32 by C19's count_inv) but print_progress itself -- mutex, debounce thread, write! to the pending buffer -- is not under contract (terminal::unix::get_cols IS: over a libc shim (winsize struct, opaque ioctl) it returns Some(c) only for c >= 10): 'a rendering problem never aborts the build' is decided only as 'these three functions never panic and terminate'",
         "R19: the `for (count, ch) in [..3 tuples..]` loop of progress_bar is unrolled; dumb/other Progress implementations are not covered",
     ],
 }
